@@ -807,6 +807,27 @@ def applyAction (s : State) : Action → State
   | .dbUserAdd dbid uid role => { s with grants := setGrant s.grants uid dbid role }
   | .dbUserRemove dbid uid => { s with grants := s.grants.filter (fun g => ¬ (g.uid = uid ∧ g.dbid = dbid)) }
 
+/-! ### the audit directory (defect found by the C24 stream, `proposed_fixes/C25-rename-audit-dir.diff`)
+
+`DbPool::exec_mut` commits the batch and THEN opens `data_dir/<owner>/audit/<db>.log`; the open fails with
+"No such file or directory" (HTTP 500) when the owner's `audit` directory does not exist. `add_db` and `copy_db`
+create it; `rename_db` to another owner created only `data_dir/<new_owner>` before the fix. The main model above
+mirrors the repaired code (the directory always exists once a database lives under an owner). -/
+
+/-- directories `DbPool::rename_db` creates for a new owner (relative to the data dir) — repaired code -/
+def renameCreatesDirs (newOwner : Str) : List Str :=
+  [Path.ownerDirS [] newOwner, Path.dbAuditDirS [] newOwner]
+
+/-- the same before the fix -/
+def renameCreatesDirsLegacy (newOwner : Str) : List Str := [Path.ownerDirS [] newOwner]
+
+/-- what `DbPool::exec_mut` answers after the transaction of a batch with audit records `au` committed:
+    (status, batch applied, batch audited) -/
+def execMutAfterCommit (auditDirExists : Bool) (au : List AuditRec) : Nat × Bool × Bool :=
+  if au.isEmpty then (200, true, true)          -- nothing to audit, the file is not touched
+  else if auditDirExists then (200, true, true)
+  else (500, true, false)                        -- `OpenOptions::open` fails after the commit
+
 /-- response payload of a successful request (computed on the state BEFORE the action for reads,
     which do not change it) -/
 def respBody (s : State) (r : Req) (a : Action) : Body :=
